@@ -445,8 +445,8 @@ class MProcess(QOperation):
         dim = c_sys.dim
 
         # var to hss
-        hss = convert_var_to_hss(
-            c_sys, var, on_para_eq_constraint=on_para_eq_constraint
+        hss = copy.deepcopy(
+            convert_var_to_hss(c_sys, var, on_para_eq_constraint=on_para_eq_constraint)
         )
 
         # calc new var
